@@ -242,11 +242,11 @@ func RInv(p *parser, top []any) bool {
 //@   loop "p.shouldShift(implAnd)": decreases len(p.stack)
 //@   lemma leaf before "final.Op == expr.Literal": expr.LemmaParsedLeaf(final)
 //@   lemma scoped before "expr.Expr(p.defaultField, expr.Equals, final.Left)": expr.LemmaDefaultFieldTerm(p.defaultField, final.Left)
-//@   lemma pushand before "p.stack = append(p.stack, implAnd)": reduce.LemmaNTokPrefix(append(p.stack, implAnd), p.stack, len(p.stack))
+//@   lemma pushand before ", implAnd)": reduce.LemmaNTokPrefix(append(p.stack, implAnd), p.stack, len(p.stack))
 //@   lemma pushlit before "p.stack = append(p.stack, lit)": reduce.LemmaNTokPrefix(append(p.stack, lit), p.stack, len(p.stack)); expr.LemmaLeafParsed(reduce.E(lit))
-//@   lemma pushtok before "p.stack = append(p.stack, tok)": reduce.LemmaNTokPrefix(append(p.stack, tok), p.stack, len(p.stack))
-//@   assert implicit-and-shiftable before "p.stack = append(p.stack, implAnd)": p.shouldShift(implAnd)
-//@   assert implicit-token-is-and before "p.stack = append(p.stack, implAnd)": implAnd.Typ == lex.TAnd
+//@   lemma pushtok before ", tok)": reduce.LemmaNTokPrefix(append(p.stack, tok), p.stack, len(p.stack))
+//@   assert implicit-and-shiftable before ", implAnd)": p.shouldShift(implAnd)
+//@   assert implicit-token-is-and before ", implAnd)": implAnd.Typ == lex.TAnd
 //@   assert operand-follows-token before "p.stack = append(p.stack, lit)": len(p.stack) == 0 || reduce.IsTok(p.stack[len(p.stack)-1])
 
 // ParsedTree: the tree Parse returns for an input (nil when it fails).
